@@ -309,14 +309,14 @@ func c17Check(c c17Case) (out [][2]string) {
 			bad("C17:api:monitor-interface", "%+v", body.Interfaces[1])
 		}
 		var ra struct {
-			Hop      int    `json:"current_hop_limit"`
-			M        bool   `json:"managed_configuration"`
-			O        bool   `json:"other_configuration"`
-			Pref     string `json:"router_selection_preference"`
-			Life     int    `json:"router_lifetime_seconds"`
-			Reach    int    `json:"reachable_time_milliseconds"`
-			Retrans  int    `json:"retransmit_timer_milliseconds"`
-			Options  map[string]json.RawMessage `json:"options"`
+			Hop     int                        `json:"current_hop_limit"`
+			M       bool                       `json:"managed_configuration"`
+			O       bool                       `json:"other_configuration"`
+			Pref    string                     `json:"router_selection_preference"`
+			Life    int                        `json:"router_lifetime_seconds"`
+			Reach   int                        `json:"reachable_time_milliseconds"`
+			Retrans int                        `json:"retransmit_timer_milliseconds"`
+			Options map[string]json.RawMessage `json:"options"`
 		}
 		if err := json.Unmarshal(body.Interfaces[0].Advertisement, &ra); err != nil {
 			bad("C17:api-failed", "advertisement: %v", err)
